@@ -31,6 +31,13 @@ type c07Case struct {
 	// "closed-in-oc": it reached OpenConfirm and was then ended by a Cease / a plain
 	// close. The collision that follows must be resolved as if nothing had happened.
 	Prelude string `json:"prelude,omitempty"`
+	// Arm: right before burst ArmBurst the (ArmSkip+1)-th next call of the named
+	// schedule point is made to busy-wait ArmD x 4 us (a targeted delay, e.g. of
+	// a just-created FSM before its first transition)
+	ArmPoint string `json:"arm_point,omitempty"`
+	ArmSkip  int    `json:"arm_skip,omitempty"`
+	ArmD     int64  `json:"arm_d,omitempty"`
+	ArmBurst int    `json:"arm_burst,omitempty"`
 }
 
 func (c c07Case) burstOf(ev string) int {
@@ -97,7 +104,7 @@ func c07Prop(t *testing.T, r *hx.Run, sub string) func(c c07Case) hx.Verdict {
 		}
 		v := hx.Verdict{Class: fmt.Sprintf("collision=%v/%s/%s/prelude=%v", collision, dom, second, c.Prelude != "")}
 		if collision {
-			v.NT = fmt.Sprintf("%s/%s/%d/%d/%v/%v/%s", c.LocalID, c.RemoteID, c.LocalAS, c.RemoteAS, c.Bursts, c.Delays, c.Prelude)
+			v.NT = fmt.Sprintf("%s/%s/%d/%d/%v/%v/%s", c.LocalID, c.RemoteID, c.LocalAS, c.RemoteAS, c.Bursts, c.Delays, c.Prelude) + fmt.Sprintf("/%s/%d/%d/%d", c.ArmPoint, c.ArmSkip, c.ArmD, c.ArmBurst)
 		}
 		p := world.PeerSpec{Remote: "10.0.0.2", LocalAS: c.LocalAS, RemoteAS: c.RemoteAS, Hold: 90}
 		remoteID := ipToU32(c.RemoteID)
@@ -109,7 +116,11 @@ func c07Prop(t *testing.T, r *hx.Run, sub string) func(c c07Case) hx.Verdict {
 		}
 		var serr error
 		o := world.Run(t, func() {
-			w, err := world.New(c.LocalID, c.Delays)
+			delays := c.Delays
+			if len(delays) == 0 && c.ArmPoint != "" {
+				delays = []int64{0} // installs the schedule-point hook
+			}
+			w, err := world.New(c.LocalID, delays)
 			if err != nil {
 				serr = err
 				return
@@ -161,7 +172,10 @@ func c07Prop(t *testing.T, r *hx.Run, sub string) func(c c07Case) hx.Verdict {
 					return
 				}
 			}
-			for _, burst := range c.Bursts {
+			for bi, burst := range c.Bursts {
+				if c.ArmPoint != "" && bi == c.ArmBurst {
+					w.Arm(c.ArmPoint, c.ArmSkip, c.ArmD)
+				}
 				for _, ev := range burst {
 					switch ev {
 					case "D":
@@ -179,6 +193,20 @@ func c07Prop(t *testing.T, r *hx.Run, sub string) func(c c07Case) hx.Verdict {
 					}
 				}
 				w.Settle()
+				// once a session is Established nothing else of the peer may stay open,
+				// whether or not the remote goes on with the other connection
+				if w.Sessions(p.Remote) > 0 {
+					nOpen := 0
+					for _, name := range []string{"out", "in"} {
+						if cn := conns[name]; cn != nil && !cn.Snapshot().LocalClosed {
+							nOpen++
+						}
+					}
+					if nOpen > 1 {
+						fail("other-connection-open-next-to-established", "after burst %d %v a session is Established and the peer's other connection is still open", bi, burst)
+						return
+					}
+				}
 			}
 			// a KEEPALIVE on whatever survives, then a tagged UPDATE
 			var open []string
@@ -388,6 +416,40 @@ func TestC07(t *testing.T) {
 		}
 	}), c07Prop(t, r, "all_orders_after_aborted_inbound"))
 
+	// "one connection becomes Established before the other has finished its OPEN exchange":
+	// the inbound connection arrives in the very burst that takes the outbound one to Established
+	// (or the other way round), with the just-created FSM / the peer manager held for a while
+	hx.Enum(r, t, "established_vs_just_accepted", 0, iter.Seq[c07Case](func(yield func(c07Case) bool) {
+		for _, ord := range orders {
+			for bi, burst := range ord {
+				pi, pk := -1, -1
+				for k, ev := range burst {
+					if ev == "I" {
+						pi = k
+					}
+					if ev == "KO" {
+						pk = k
+					}
+				}
+				if pi < 0 || pk < 0 {
+					continue
+				}
+				for _, cfg := range []c07Cfg{c07Cfgs[0], c07Cfgs[2]} {
+					for _, pt := range []string{"fsm.transition", "peer.loop"} {
+						for skip := 0; skip < 2; skip++ {
+							for _, d := range []int64{50, 150} {
+								if !yield(c07Case{LocalID: cfg.lid, RemoteID: cfg.rid, LocalAS: cfg.las, RemoteAS: cfg.ras, Bursts: ord,
+									ArmPoint: pt, ArmSkip: skip, ArmD: d, ArmBurst: bi}) {
+									return
+								}
+							}
+						}
+					}
+				}
+			}
+		}
+	}), c07Prop(t, r, "established_vs_just_accepted"))
+
 	hx.Rapid(r, t, "generated", r.N(3000, 30000), func(rt *rapid.T) c07Case {
 		ord := orders[rapid.IntRange(0, len(orders)-1).Draw(rt, "order")]
 		c := c07Case{Bursts: ord}
@@ -416,6 +478,12 @@ func TestC07(t *testing.T) {
 			c.Delays = append(c.Delays, rapid.Int64Range(0, 3).Draw(rt, "delay"))
 		}
 		c.Prelude = pick(rt, "prelude", "", "", "aborted-in", "reset-in", "ceased-in-oc", "closed-in-oc")
+		if rapid.Bool().Draw(rt, "arm") {
+			c.ArmPoint = pick(rt, "armpoint", "fsm.transition", "fsm.transition", "peer.loop", "peer.collision")
+			c.ArmSkip = rapid.IntRange(0, 4).Draw(rt, "armskip")
+			c.ArmD = pick[int64](rt, "armd", 10, 50, 150)
+			c.ArmBurst = rapid.IntRange(0, len(c.Bursts)-1).Draw(rt, "armburst")
+		}
 		return c
 	}, c07Prop(t, r, "generated"))
 }
